@@ -65,7 +65,7 @@ impl Engine for Io {
         if tier == "thorough" {
             4_000_000
         } else {
-            200_000
+            300_000
         }
     }
     fn run_seeded(&mut self, prop: &str, seed: u64, idx: u64, tier: &str, stats: &mut Stats, want_desc: bool) -> RunOut {
